@@ -44,10 +44,14 @@ def load_corpus() -> List[dict]:
         edits.append({"id": sid, "kind": "mutant" if exp is None else ("undecided" if exp == "undecided" else "neutral"),
                       "property": m.get("breaks_property") or m.get("property"), "suite": "survives",
                       "patch": os.path.join(os.path.dirname(d), "patch.diff"), "note": "seeded: " + m.get("summary", "")[:80]})
+    tp = os.path.join(VERIF, "selftest", "twins", "EXPECTATIONS.json")
+    twin_exp = {k: v for k, v in json.load(open(tp)).items() if not k.startswith("_")} if os.path.exists(tp) else {}
     for d in sorted(glob.glob(os.path.join(VERIF, "selftest", "twins", "*", "meta.json"))):
         m = json.load(open(d))
         sid = os.path.basename(os.path.dirname(d))
-        edits.append({"id": sid, "kind": "twin", "property": m.get("property", "C01"), "suite": "survives",
+        # a documented exotic form: the checks may declare it undecided (ANALYSIS-ERROR, exit 2) but never a violation
+        edits.append({"id": sid, "kind": "twin-undecided" if twin_exp.get(sid, {}).get("expect") == "undecided" else "twin",
+                      "property": m.get("property", "C01"), "suite": "survives",
                       "patch": os.path.join(os.path.dirname(d), "patch.diff"), "note": "refactoring: " + m.get("summary", "")[:80]})
     vp = os.path.join(VERIF, "selftest", "suite_verdicts.json")
     if os.path.exists(vp):
@@ -171,6 +175,9 @@ def thorough_slice(ctx) -> None:
         elif e["kind"] == "undecided":
             if ex == 0:
                 misses.append("%s (%s) passes silently: it must at least be declared undecided" % (r["id"], e.get("note", "")))
+        elif e["kind"] == "twin-undecided":
+            if ex == 1:
+                misses.append("%s (%s) is reported as a violation: at most undecided" % (r["id"], e.get("note", "")))
         else:
             quiet_total += 1
             if ex == 0:
@@ -222,9 +229,9 @@ def main(argv=None) -> int:
             own = e.get("property")
             if own in props and own not in fired and own not in errs:
                 status = "MISS"
-        elif e["kind"] == "neutral" and e["id"].startswith("C") and "_" in e["id"]:
+        elif (e["kind"] == "neutral" and e["id"].startswith("C") and "_" in e["id"]) or e["kind"] == "twin-undecided":
             if fired:
-                status = "FALSE-ALARM"  # errors are tolerated for a non-equivalent change
+                status = "FALSE-ALARM"  # errors are tolerated for a non-equivalent change / a documented exotic form
         else:
             if fired or errs:
                 status = "FALSE-ALARM"
